@@ -13,7 +13,7 @@ package grpcutil
 
 // One endpoint per map key, each with exactly that key as its single address; indices stay in bounds.
 //@ contract (*MultiClientConn).deriveStateFromConns
-//@   shape sig=(mcc *MultiClientConn)()( resolver.State);loops=range;lits=0
+//@   shape sig=(mcc *MultiClientConn)()( resolver.State);loops=range;lits=0;fv=
 //@   props C11
 //@   ensures @count: len(result.Endpoints) == len(mcc.connMap)
 //@   ensures @covers: forall k string :: { k in mcc.connMap } k in mcc.connMap ==> exists i int :: 0 <= i && i < len(result.Endpoints) &&
@@ -29,7 +29,7 @@ package grpcutil
 
 // Map and resolver state are replaced together, inside one critical section.
 //@ contract (*MultiClientConn).UpdateState
-//@   shape sig=(mcc *MultiClientConn)(conns map[string]func() (net.Conn, error))();loops=;lits=0
+//@   shape sig=(mcc *MultiClientConn)(conns map[string]func() (net.Conn, error))();loops=;lits=0;fv=
 //@   props C11
 //@   ensures @map_set: mcc.connMap == conns
 //@   assigns mcc.connMap
@@ -39,7 +39,7 @@ package grpcutil
 // A session-list update installs a FRESH map with exactly the session ids as keys, each opening streams on that
 // session; the empty list installs nil.
 //@ contract (*MultiClientConn).OnConnectionListUpdate
-//@   shape sig=(mcc *MultiClientConn)(muxes map[string]session.ManagedMuxSession)();loops=range;lits=0
+//@   shape sig=(mcc *MultiClientConn)(muxes map[string]session.ManagedMuxSession)();loops=range;lits=0;fv=
 //@   props C11
 //@   callpre UpdateState: @empty: len(muxes) == 0 ==> $conns == nil
 //@   callpre UpdateState: @keys: len(muxes) > 0 ==> $conns != nil && fresh($conns) &&
@@ -56,7 +56,7 @@ package grpcutil
 
 // The dialer consults the same map: an address that is not registered is refused.
 //@ contract (*MultiClientConn).getMapDialer$1
-//@   shape sig=(ctx context.Context,addr string)( net.Conn, error);loops=;lits=0
+//@   shape sig=(ctx context.Context,addr string)( net.Conn, error);loops=;lits=0;fv=connFn
 //@   props C11
 //@   requires mcc != nil
 //@   ensures @unknown_refused: old(!(addr in mcc.connMap)) ==> result0 == nil && result1 != nil
@@ -65,6 +65,6 @@ package grpcutil
 // session to pick, a call returns Unavailable at once instead of being queued until its deadline (or for ever).
 // The default call options therefore never contain WaitForReady(true).
 //@ contract MakeDialOptions
-//@   shape sig=(tlsConfig *tls.Config,clientMetrics *prometheus.ClientMetrics)( []grpc.DialOption);loops=;lits=0
+//@   shape sig=(tlsConfig *tls.Config,clientMetrics *prometheus.ClientMetrics)( []grpc.DialOption);loops=;lits=0;fv=
 //@   props C11
 //@   callpre WaitForReady?: @calls_fail_fast: !$0
